@@ -41,6 +41,26 @@ def load_ledger():
     return json.load(open(path))
 
 
+def witness_reproduces(f, repo_root):
+    w = f.get('witness')
+    if not w:
+        return True
+    try:
+        out = subprocess.run(['/venv/bin/python', os.path.join(VERIF, w)], capture_output=True, text=True, timeout=120,
+                             env=dict(os.environ, PYTHONPATH=os.path.join(repo_root, 'src')))
+        return out.returncode == 1
+    except Exception:
+        return True
+
+
+def known_unit(res, key):
+    label = key.split(' :: ')[0]
+    for r in res:
+        if r['label'] == label:
+            return r
+    return res[0]
+
+
 def obligation_key(r, o):
     return r['label'] + ' :: ' + o['name']
 
@@ -160,7 +180,12 @@ def evaluate(pid, res, known, ledger, repo_root, tier):
     for (f, key, o) in known_hits:
         if f['id'] not in printed:
             printed.add(f['id'])
-            lines.append('KNOWN-FINDING: property=%s %s' % (pid, f['what']))
+            still = witness_reproduces(f, repo_root)
+            if still:
+                lines.append('KNOWN-FINDING: property=%s %s' % (pid, f['what']))
+            else:
+                # the listed witness no longer fails but the obligation does: a different violation
+                failed.append((known_unit(res, key), o, key))
     if failed:
         code = 1
         from . import replay
@@ -225,7 +250,8 @@ def write_evidence(pid, tier, seed, res, report, wall, specs, repo_root):
     ev = {
         'property_id': pid, 'tier': tier, 'seed': seed, 'level': 'proof',
         'coverage': {
-            'obligations': report['obligations'], 'discharged': report['discharged'],
+            'obligations': report['obligations'] - len(report['known_hits']), 'discharged': report['discharged'],
+            'obligations_suppressed_by_open_known_findings': len(report['known_hits']),
             'checker_cmd': 'python3-vt -m pyvc.check %s --tier %s' % (pid, tier),
             'trusted_base': lib.TRUSTED + ['the pyvc VC generator, z3 5.1.0, cvc5 1.0.3'],
             'samples': samples,
